@@ -2,11 +2,12 @@
    Only property theorems live here; each is closed by `exact`/a one-line wrapper and followed by
    Print Assumptions.  All theorems are relative to the oracle hypothesis LexOk (the token texts of
    the Pygments lexer concatenate to its normalisation of the input under the options passed at the
-   call site) and, on the word_wrap path, to the Text.wrap contract WrapOk (property C02).
+   call site); the Text.wrap contract of the word_wrap path is DISCHARGED from C02's theorems
+   (C17_wrap_contract), it is no longer a hypothesis.
    `current_facts` are the call-site facts regenerated from /repo on every run (gen/SyntaxFacts.v). *)
-From RichModel Require Import Prelude Cells Syntax SpecSyntax.
+From RichModel Require Import Prelude Cells Syntax SpecSyntax SyntaxWrap.
 From RichGen Require SyntaxFacts.
-From RichProofs Require Import SyntaxP SyntaxP2 SyntaxP3 SyntaxP4.
+From RichProofs Require Import SyntaxP SyntaxP2 SyntaxW SyntaxG SyntaxP3 SyntaxP4 SyntaxP5.
 
 (* Tie 1: today's /repo passes stripnl=False/ensurenl=True to get_lexer_by_name, guards the skip
    loop of tokens_to_spans, skips the indent-guide pass on an empty selection; and the Syntax(...)
@@ -21,44 +22,57 @@ Example C17_traceback_call_site :
 Proof. repeat split; reflexivity. Qed.
 
 Section C17.
-Variable lex : str -> list (Z * str).            (* the Pygments lexer *)
-Variable wrapf : str -> Z -> bool -> list str.   (* Text.wrap + truncate of one line *)
+Variable lex : str -> list (Z * str).            (* the Pygments lexer: an oracle *)
 Hypothesis LexOk_ : LexOk (f_lex current_facts) lex.
-Hypothesis WrapOk_ : WrapOk wrapf.
 
 Lemma lexok_fixed : LexOk (f_lex fixed_facts) lex.
 Proof. exact LexOk_. Qed.
 
-(* (1) the de-guttered output lines are the range-clipped lines of the tab-expanded source, in
-   order (blank lines at the very end aside), for every source over the clean alphabet, every
-   start_line >= 0, every range with end >= 0, highlight set, wrap mode, code width >= 0, tab size *)
+(* The word-wrapping function is C02's model of Text.wrap (RichModel.Wrap) through the adapter
+   SyntaxWrap.wrapf_text; its contract is no longer a hypothesis: it follows from C02's theorems
+   wrap_keeps_nonspace_all (C02_wrap_keeps_nonspace) and wrap_fits_all (C02_wrap_fits). *)
+Theorem C17_wrap_contract : WrapOk wrapf_text.
+Proof. exact wrapf_text_ok. Qed.
+
+(* Domain of all theorems below (opts_ok): start_line >= 0, range end >= 0, code width >= 0 (>= 2
+   when word_wrap), tab_size >= 1 when indent_guides; any lexer (found or not), range, highlight
+   set, theme; sources over the clean alphabet (no CR/BOM/BEL/BS/VT/FF). *)
+
+(* (1) the de-guttered output lines are the (range-clipped) lines of the tab-expanded source, in
+   order, blank lines at the very end aside -- with or without line numbers, with or without indent
+   guides (a guide character only on an ASCII space of the indentation, or on a blank line), cropped
+   or word-wrapped *)
 Theorem C17_syntax_lines : forall o code W,
-  clean code = true -> o_line_numbers o = true -> o_indent_guides o = false ->
-  0 <= o_start_line o -> range_end_nonneg o -> 0 <= code_width_of o code W ->
-  exists out, render lex current_facts wrapf o code W = Ok out /\ lines_match_b o code W out = true.
-Proof. exact (syntax_lines lex wrapf lexok_fixed WrapOk_). Qed.
+  clean code = true -> opts_ok o (code_width_of o code W) ->
+  exists out, render lex current_facts wrapf_text o code W = Ok out /\ lines_match_b o code W out = true.
+Proof.
+  intros o code W Hc Hok. destruct (o_line_numbers o) eqn:Eln.
+  - exact (syntax_lines lex wrapf_text lexok_fixed wrapf_text_ok o code W Hc Eln Hok).
+  - exact (render_plain_spec lex wrapf_text lexok_fixed wrapf_text_ok o code W false false Hc Eln Hok).
+Qed.
 
 (* (2) each displayed number is the index of that line in the source counted from start_line; the
    gutter column (width computed from the newline count of the source) is never overflowed *)
 Theorem C17_numbers_right : forall o code W,
-  clean code = true -> o_line_numbers o = true -> o_indent_guides o = false ->
-  0 <= o_start_line o -> range_end_nonneg o -> 0 <= code_width_of o code W ->
-  exists out, render lex current_facts wrapf o code W = Ok out /\ numbers_ok_b o code W out = true.
-Proof. exact (numbers_right lex wrapf lexok_fixed WrapOk_). Qed.
+  clean code = true -> o_line_numbers o = true -> opts_ok o (code_width_of o code W) ->
+  exists out, render lex current_facts wrapf_text o code W = Ok out /\ numbers_ok_b o code W out = true.
+Proof. exact (numbers_right lex wrapf_text lexok_fixed wrapf_text_ok). Qed.
 
 (* (3) a line range selects exactly those lines, clipped to the lines that exist (never raises) *)
 Theorem C17_range_exact : forall o code W,
-  clean code = true -> o_line_numbers o = true -> o_indent_guides o = false ->
-  0 <= o_start_line o -> range_end_nonneg o -> 0 <= code_width_of o code W ->
-  exists out, render lex current_facts wrapf o code W = Ok out /\ range_ok_b o code W out = true.
-Proof. exact (range_exact lex wrapf lexok_fixed WrapOk_). Qed.
+  clean code = true -> o_line_numbers o = true -> opts_ok o (code_width_of o code W) ->
+  exists out, render lex current_facts wrapf_text o code W = Ok out /\ range_ok_b o code W out = true.
+Proof. exact (range_exact lex wrapf_text lexok_fixed wrapf_text_ok). Qed.
 
-(* (3') the pointer marks exactly the lines of highlight_lines; together with (1)-(3): *)
+(* (1)-(3) together with: the pointer marks exactly the lines of highlight_lines -- every path *)
 Theorem C17_render_ok : forall o code W,
-  clean code = true -> o_line_numbers o = true -> o_indent_guides o = false ->
-  0 <= o_start_line o -> range_end_nonneg o -> 0 <= code_width_of o code W ->
-  exists out, render lex current_facts wrapf o code W = Ok out /\ render_ok_b o code W out = true.
-Proof. exact (render_numbered_spec lex wrapf lexok_fixed WrapOk_). Qed.
+  clean code = true -> opts_ok o (code_width_of o code W) ->
+  exists out, render lex current_facts wrapf_text o code W = Ok out /\ render_ok_b o code W out = true.
+Proof.
+  intros o code W Hc Hok. destruct (o_line_numbers o) eqn:Eln.
+  - exact (render_numbered_spec lex wrapf_text lexok_fixed wrapf_text_ok o code W Hc Eln Hok).
+  - exact (render_plain_spec lex wrapf_text lexok_fixed wrapf_text_ok o code W true true Hc Eln Hok).
+Qed.
 
 (* (4) highlighting never changes a character *)
 Theorem C17_highlight_keeps_chars : forall code, clean code = true ->
@@ -70,36 +84,39 @@ Theorem C17_highlight_keeps_chars_ranged : forall code a e, clean code = true ->
 Proof. exact (highlight_keeps_chars_ranged lex lexok_fixed). Qed.
 
 (* (5) a traceback frame (the Syntax(...) call of Traceback._render_stack with the keyword values of
-   today's /repo): the code block is lines lineno-extra..lineno+extra clipped to the file, each under
-   its own number, the pointer exactly on the line numbered lineno ... *)
-Theorem C17_traceback_frame_ok : forall code lineno extra ww transparent W,
+   today's /repo), indent guides on or off, wrapped or not: the code block is lines
+   lineno-extra..lineno+extra clipped to the file, each under its own number, the pointer exactly on
+   the line numbered lineno ... *)
+Theorem C17_traceback_frame_ok : forall code lineno extra ww transparent guides W,
   clean code = true -> 0 <= extra -> 1 <= lineno ->
-  let o := tb_opts lineno extra ww transparent false in
-  exists out, render_frame lex current_facts wrapf code lineno extra ww transparent false W = Ok out /\
+  let o := tb_opts lineno extra ww transparent guides in
+  exists out, render_frame lex current_facts wrapf_text code lineno extra ww transparent guides W = Ok out /\
               render_ok_b o code W out = true /\
               o_highlight o = [lineno] /\ o_range o = Some (lineno - extra, lineno + extra).
 Proof.
-  intros code lineno extra ww transparent W Hc He Hl.
-  apply (traceback_frame_ok lex wrapf lexok_fixed WrapOk_); try assumption; try reflexivity; vm_compute; discriminate.
+  intros code lineno extra ww transparent guides W Hc He Hl.
+  apply (traceback_frame_ok lex wrapf_text lexok_fixed wrapf_text_ok); try assumption; try reflexivity; vm_compute; discriminate.
 Qed.
 
 (* ... and, whatever the file's leading blank lines or length, the source line at the frame's line
    number (a statement, so not blank) IS displayed, alone carries the pointer, under the number
-   lineno, in a panel wide enough for the 88-column code block (non-wrapping traceback) *)
-Theorem C17_traceback_marks_failing_line : forall code lineno extra transparent W avail e,
+   lineno -- indent guides (Traceback's default) on or off -- in a panel wide enough for the
+   88-column code block (non-wrapping traceback) *)
+Theorem C17_traceback_marks_failing_line : forall code lineno extra transparent guides W avail e,
   clean code = true -> 0 <= extra -> 1 <= lineno ->
-  let o := tb_opts lineno extra false transparent false in
+  let o := tb_opts lineno extra false transparent guides in
   nth_error (source_lines o code) (Z.to_nat (lineno - 1)) = Some e -> blank e = false ->
   SyntaxFacts.tb_code_width + spec_gutter_width o code <= avail ->
-  exists out, render_frame lex current_facts wrapf code lineno extra false transparent false W = Ok out /\
-              failing_line_b code lineno avail false out = true.
+  exists out, render_frame lex current_facts wrapf_text code lineno extra false transparent guides W = Ok out /\
+              failing_line_b code lineno avail guides out = true.
 Proof.
-  intros code lineno extra transparent W avail e Hc He Hl.
-  apply (traceback_marks_failing_line lex wrapf code lineno extra transparent W avail e lexok_fixed Hc He Hl);
+  intros code lineno extra transparent guides W avail e Hc He Hl.
+  apply (traceback_marks_failing_line lex wrapf_text code lineno extra transparent guides W avail e lexok_fixed Hc He Hl);
     try reflexivity; vm_compute; discriminate.
 Qed.
 End C17.
 
+Print Assumptions C17_wrap_contract.
 Print Assumptions C17_syntax_lines.
 Print Assumptions C17_numbers_right.
 Print Assumptions C17_range_exact.
@@ -121,6 +138,22 @@ Example C17_wrap_contract_nonvacuous :
   wrap_ok_b (lit "aaaa bbbb cccc dddd") 8 (wrap_fit (lit "aaaa bbbb cccc dddd") 8 true) = true
   /\ length (wrap_fit (lit "aaaa bbbb cccc dddd") 8 true) = 4%nat.
 Proof. vm_compute. split; reflexivity. Qed.
+(* indent guides, word wrap through C02's Text.wrap model, an ideographic-space indented line:
+   "if x:\n    yy = 1\n\n    \u3000z\n" at code width 6 *)
+Definition guides_code : str :=
+  [105; 102; 32; 120; 58; 10; 32; 32; 32; 32; 121; 121; 32; 61; 32; 49; 10; 10; 32; 32; 32; 32; 12288; 122; 10].
+Definition guides_ww_opts : opts := mkOpts true true 1 None [2] true (Some 6) 4 false true.
+Example C17_guides_wrap_nonvacuous :
+  exists out, render (one_token_lexer (f_lex fixed_facts)) fixed_facts wrapf_text guides_ww_opts guides_code 30 = Ok out /\
+              render_ok_b guides_ww_opts guides_code 30 out = true /\ length out = 6%nat /\
+              existsb (existsb (fun c => c =? GUIDE)) out = true.
+Proof. eexists. split; [vm_compute; reflexivity|]. repeat split; vm_compute; reflexivity. Qed.
+Definition plain_opts : opts := mkOpts true false 1 (Some (1, 2)) [] false None 4 true false.
+Example C17_plain_nonvacuous :
+  exists out, render (one_token_lexer (f_lex fixed_facts)) fixed_facts wrapf_text plain_opts guides_code 12 = Ok out /\
+              lines_match_b plain_opts guides_code 12 out = true /\ length out = 2%nat.
+Proof. eexists. split; [vm_compute; reflexivity|]. split; vm_compute; reflexivity. Qed.
+
 Example C17_traceback_nonvacuous :
   exists out, render_frame (one_token_lexer (f_lex fixed_facts)) fixed_facts wrap_fit tb_code 4 3 false true false 100 = Ok out /\
               failing_line_b tb_code 4 96 false out = true.
